@@ -118,6 +118,9 @@ def gen_scenario(r, sid):
             for fld in ("v", "sl"):
                 if r.random() < 0.15:
                     del d[fld]
+            hr3 = random.Random(r.random())
+            if kind == "event" and hr3.random() < 0.2:
+                d[hr3.choice(["event_type", "trigger_type"])] = "zz"     # a payload field named like a header variable: the data wins
             msgs.append({"kind": kind, "key": key, "d": d})
         bursts.append({"msgs": msgs, "gap": r.choice([0, 1, 3, 10])})
     return {"sid": sid, "trigs": trigs, "bursts": bursts, "holds": holds}
